@@ -135,7 +135,7 @@ fn observe(c: &Coll, h: &H, universe: &[u32], with_snap: bool) -> Value {
 }
 
 fn call_event(t: usize, i: usize, op: &Op) -> Value {
-    json!({"e": "call", "t": t, "i": i, "op": op.op, "k": op.k, "tag": op.tag, "v": op.n, "f": op.f,
+    json!({"e": "call", "t": t, "i": i, "op": op.op, "k": op.k, "tag": op.tag, "v": op.n, "pl": op.pl, "f": op.f, "n": op.n,
            "g": op.guard, "keys": op.keys, "pa": op.panic_at})
 }
 
@@ -295,6 +295,7 @@ fn run_job(job: &Job) -> Value {
         g.rec_sites = job.rec.iter().any(|r| r == "site");
         g.yield_relaxed = !job.no_yield_relaxed;
         g.free_run = true;
+        g.seq_mode = nthreads == 0;
         g.thr[main_tid].st = sched::St::Done;
     }
     let os_mode = job.sched.get("kind").and_then(|k| k.as_str()) == Some("os");
